@@ -12,7 +12,7 @@ LEVEL_TEXT = (
     "definition tables are filled in a fixed (sorted) file order and never overwrite; no report text can print an SSA version"
     " (call-graph reachability over the type-checked program from every report-producing function to the version printer, log"
     " macros excluded, with a positive control); no report is selected first-wins inside a loop; the per-definition CFG cache is"
-    " taken and put back around each analysis; a failing file does not stop the others."
+    " taken and put back around each analysis; a failing file does not stop the others; the merging loops have no early exit; desugaring resolves against the table it was given; no process-wide state."
 )
 NOT_DECIDED = "order-independence of every analysis result (that each pass computes the same set whatever the iteration order of its internal hash maps)."
 TRUSTED = ["rustc MIR and trait resolution (engines/mirfacts)", "syn parser", "formatting edges: Argument::new_debug/new_display::<T> stands for a call of <T as Debug/Display>::fmt"]
